@@ -26,6 +26,8 @@ pub struct Plan {
     /// probes that must not stay at zero (a stuck probe is a harness error: the workload does not reach the mechanism)
     pub required_probes: Vec<String>,
     pub exhaustive: bool,
+    /// property-specific description of the planned space (written into the evidence as coverage.plan)
+    pub extra: serde_json::Value,
 }
 
 pub fn run_seed(seed: u64, i: u64) -> u64 {
@@ -55,6 +57,7 @@ pub fn build_plan(property: &str, tier: &str, seed: u64, ctx: &Arc<ExecCtx>) -> 
         c14_reachable: BTreeMap::new(),
         required_probes: vec![],
         exhaustive: false,
+        extra: serde_json::Value::Null,
     };
     let seeded = |plan: &mut Plan, gen: &str, n: u64, salt: u64| {
         for i in 0..n {
@@ -66,6 +69,21 @@ pub fn build_plan(property: &str, tier: &str, seed: u64, ctx: &Arc<ExecCtx>) -> 
             plan.level = "fault_enumeration".into();
             let en = props::c14::enumerate(ctx, if quick { 2 } else { 7 }, !quick)?;
             plan.c14_reachable = en.reachable;
+            let mut by_phase: BTreeMap<String, u64> = BTreeMap::new();
+            let mut by_kind: BTreeMap<String, u64> = BTreeMap::new();
+            let mut by_mode: BTreeMap<String, u64> = BTreeMap::new();
+            let mut by_config: BTreeMap<String, u64> = BTreeMap::new();
+            for c in &en.cases {
+                *by_phase.entry(format!("{:?}", c.phase)).or_insert(0) += 1;
+                *by_kind.entry(crate::faults::kind_name(&c.kind)).or_insert(0) += 1;
+                *by_mode.entry(format!("{:?}", c.mode)).or_insert(0) += 1;
+                *by_config.entry(format!("{}/{}/{}", c.config.lang, c.config.style, c.config.code)).or_insert(0) += 1;
+            }
+            plan.extra = serde_json::json!({
+                "enumerated_cases": en.cases.len(),
+                "cases_by_phase": by_phase, "cases_by_fault_kind": by_kind, "cases_by_repair_mode": by_mode, "cases_by_configuration": by_config,
+                "files_read_by_a_fault_free_session": plan.c14_reachable.iter().map(|(k, v)| (k.clone(), v.len())).collect::<BTreeMap<String, usize>>(),
+            });
             for c in en.cases {
                 plan.units.push(Unit::C14Case(c));
             }
